@@ -53,7 +53,38 @@ class Ctx:
     def ok(self, rule, instance, where="", why="", **kw):
         return self._add(Ob(rule, instance, PASS, where, why, **kw))
 
+    def _status_switch_ranges(self):
+        """Functions with a `switch` over a status value (type econf_err) that no constant decides: the branch edges of a switch carry no
+        case facts in the path engine (edge literals exist for two-way branches only), so a path verdict inside such a function -
+        "a failure goes on", "success is reachable with ..." - cannot tell `case ECONF_NOFILE:` from `default:`."""
+        if getattr(self, "_ssr", None) is None:
+            self._ssr = []
+            prog = self.prog
+            fns = list(getattr(prog, "functions", {}).values()) + list(getattr(prog, "util_functions", {}).values()) if prog is not None else []
+            for f in fns:
+                try:
+                    dead = getattr(f.cfg, "pruned", set()) if f.body is not None else set()
+                    for x in (f.body.walk() if f.body is not None else []):
+                        if x.k == "SwitchStmt" and x.id not in dead:
+                            c = x.child("cond")
+                            c0 = c.strip() if c is not None else None
+                            if c0 is not None and (c0.j.get("ct") == "enum econf_err" or (c0.j.get("from") or {}).get("ct") == "enum econf_err") and c0.const_value() is None:
+                                self._ssr.append((f.file_rel, f.line, max((n.j.get("eline") or n.j.get("line") or 0) for n in f.nodes if n is not None), f.name))
+                                break
+                except Exception:
+                    continue
+        return self._ssr
+
     def fail(self, rule, instance, where="", why="", key=None, path=None, **kw):
+        try:
+            w = str(where).split(":")
+            if len(w) >= 2 and w[1].isdigit():
+                for (fr, lo, hi, fname) in self._status_switch_ranges():
+                    if w[0] == fr and lo <= int(w[1]) <= hi:
+                        return self._add(Ob(rule, instance, INCONCLUSIVE, where,
+                                            "%s uses a `switch` over a status value, whose case edges the path engine does not follow; not decided: %s" % (fname, why)))
+        except Exception:
+            pass
         return self._add(Ob(rule, instance, FAIL, where, why, key=key, path=path, **kw))
 
     def inconclusive(self, rule, instance, where="", why="", **kw):
